@@ -659,13 +659,19 @@ func Reify(x any) *V {
 // always gets the same Go values and all flavours occur across a run.
 var nilPtrFlavor atomic.Int32
 
+const nilPtrFlavors = 7
+
 type nilPtrStruct struct {
 	A any `liquid:"a"`
 	B int
 }
 
 func nilPointer(flavor int) any {
-	switch flavor % 5 {
+	switch flavor % nilPtrFlavors {
+	case 5:
+		return (*time.Time)(nil) // times are plain data, and code that knows about times looks through pointers to them
+	case 6:
+		return (*values.Range)(nil)
 	case 1:
 		return (*nilPtrStruct)(nil)
 	case 2:
